@@ -64,6 +64,14 @@ fn gen_one(seed: u64, run: u64, tier: Tier, bk: Bk, op: &str, rep: u64) -> Plan 
     let mut b = Builder::new("C16", seed, run, vec![bk]);
     let fk = b.family_keys(bk.family(), false).expect("family keys");
     let now = Ns(b.now_ns);
+    // the environment seam: in two runs of three every unset environment variable the library asks for
+    // during an operation exists, holding 64 hex digits or "1" (an override or switch behind such a
+    // variable is then on; nothing asks on the unchanged tree)
+    b.plan.env = match (run / 7) % 3 {
+        1 => Some("a5".repeat(32)),
+        2 => Some("1".to_string()),
+        _ => None,
+    };
     if op == "history" {
         let count = match tier {
             Tier::Quick => 2_000,
